@@ -13,6 +13,29 @@ def rd(n):
 AXIOMS = {}
 props = [json.loads(l) for l in (V / "properties.jsonl").read_text().splitlines() if l.strip()]
 out = rd("a0_header.md")
+# state at a glance (computed from the committed evidence, findings and seeds)
+try:
+    import glob
+    evs = [json.loads(Path(f).read_text()) for f in sorted(glob.glob(str(V / "evidence" / "C*.json")))]
+    thm = sum(e["coverage"].get("obligations", 0) for e in evs)
+    dis = sum(e["coverage"].get("discharged", 0) for e in evs)
+    kfn = json.loads((V / "known_findings.json").read_text())["findings"]
+    nfix = sum(1 for k in kfn if k.get("status") == "fixed"); nopen = sum(1 for k in kfn if k.get("status") != "fixed")
+    nseed = sum(1 for d in (V / "seeded").iterdir() if (d / "meta.json").exists())
+    def _ind(d):
+        try:
+            return "independent" in str(json.loads((d / "meta.json").read_text()).get("origin", ""))
+        except Exception:
+            return False
+    nind = sum(1 for d in (V / "seeded").iterdir() if (d / "meta.json").exists() and _ind(d))
+    nv = len(list((V / "coq" / "theories").rglob("*.v")))
+    out = out.rstrip() + ("\n\n**State at a glance.**  %d properties claimed (none not-applicable), %d property theorems in "
+           "`Props/Properties_C*.v`, %d discharged in the last committed evidence, over %d Coq files; %d genuine defects of the pinned tree "
+           "found and repaired with `fix:` commits (%d open); %d seeded breaking changes kept under `seeded/` (%d from independent "
+           "sub-agents that saw only the property text), all reported by the check of their property with a replay.\n\n"
+           % (len(evs), thm, dis, nv, nfix, nopen, nseed, nind))
+except Exception as ex:
+    print("summary not computed:", ex)
 out += "# Part I — approach\n\n" + rd("s01_what.md") + rd("s02_why.md") + rd("a3_architecture.md") + rd("s04_conventions.md")
 out += rd("a7_trusted.md") + rd("a8_interface.md") + rd("s10_limits.md") + rd("a11_false_alarms.md")
 out += "--------------------------------------------------------------------------------\n\n# Part II — per property, as built\n\n"
